@@ -379,6 +379,7 @@ func (c *Conn) handleUnsubscribe(dec *imapwire.Decoder) error {
 
 func (c *Conn) checkBufferedLiteral(size int64, nonSync bool) error {
 	if size > 4096 {
+		c.rejectLiteral(nonSync)
 		return &imap.Error{
 			Type: imap.StatusResponseTypeNo,
 			Code: imap.ResponseCodeTooBig,
@@ -391,6 +392,7 @@ func (c *Conn) checkBufferedLiteral(size int64, nonSync bool) error {
 
 func (c *Conn) acceptLiteral(size int64, nonSync bool) error {
 	if nonSync && size > 4096 && !c.server.options.caps().Has(imap.CapLiteralPlus) {
+		c.rejectLiteral(nonSync)
 		return &imap.Error{
 			Type: imap.StatusResponseTypeBad,
 			Text: "Non-synchronizing literals are limited to 4096 bytes",
@@ -402,6 +404,16 @@ func (c *Conn) acceptLiteral(size int64, nonSync bool) error {
 	}
 
 	return c.writeContReq("Ready for literal data")
+}
+
+// rejectLiteral must be called when a literal is refused. The data of a
+// non-synchronizing literal is already in flight and cannot be told apart from
+// the commands following it, so the connection is closed once the current
+// command has been answered (RFC 7888 section 4).
+func (c *Conn) rejectLiteral(nonSync bool) {
+	if nonSync {
+		c.state = imap.ConnStateLogout
+	}
 }
 
 func (c *Conn) canAuth() bool {
